@@ -111,7 +111,7 @@ func c09(r *Report) {
 				})
 			}
 			isNew := func(v ssa.Value) bool {
-				return anyIn(w.backSlice(v, flowOpt{}), func(x ssa.Value) bool { return len(ui.Params) > 1 && x == ssa.Value(ui.Params[1]) })
+				return anyIn(w.backSlice(v, flowOpt{}), func(x ssa.Value) bool { return len(ui.Params) > 1 && isParamVal(x, ui.Params[1]) })
 			}
 			var delta ssa.Value
 			nsub := 0
@@ -205,10 +205,10 @@ func c09(r *Report) {
 			name string
 			addr func(ssa.Value) bool
 		}{
-			{"connection window", func(a ssa.Value) bool { return a == ssa.Value(emit.Params[2]) }},
+			{"connection window", func(a ssa.Value) bool { return isParamVal(a, emit.Params[2]) }},
 			{"stream window", func(a ssa.Value) bool {
 				fa, ok := a.(*ssa.FieldAddr)
-				return ok && fa.X == ssa.Value(emit.Params[0]) && fieldObj(fa).Name() == "windowSize"
+				return ok && isParamVal(fa.X, emit.Params[0]) && fieldObj(fa).Name() == "windowSize"
 			}},
 		} {
 			isDec := func(i ssa.Instruction) bool {
@@ -624,7 +624,7 @@ func windowFitRules(r *Report, emit *ssa.Function) ([]sendPoint, bool) {
 	}
 	isConnWin := func(v ssa.Value) bool {
 		ld, ok := v.(*ssa.UnOp)
-		return ok && ld.Op == token.MUL && ld.X == ssa.Value(emit.Params[2])
+		return ok && ld.Op == token.MUL && isParamVal(ld.X, emit.Params[2])
 	}
 	isStreamWin := func(v ssa.Value) bool {
 		ld, ok := v.(*ssa.UnOp)
@@ -632,7 +632,7 @@ func windowFitRules(r *Report, emit *ssa.Function) ([]sendPoint, bool) {
 			return false
 		}
 		fa, ok := ld.X.(*ssa.FieldAddr)
-		return ok && fa.X == ssa.Value(emit.Params[0]) && fieldObj(fa).Name() == "windowSize"
+		return ok && isParamVal(fa.X, emit.Params[0]) && fieldObj(fa).Name() == "windowSize"
 	}
 	for _, cmp := range []struct {
 		name string
@@ -795,7 +795,7 @@ func frameSizeRules(r *Report) {
 		// every legal value is applied: a test that guards the store admits the whole range the
 		// protocol allows (2^14 .. 2^24-1), its two ends included
 		for _, c := range plainCalls(um, "sync/atomic.StoreUint32", "(*sync/atomic.Uint32).Store") {
-			isArg := func(v ssa.Value) bool { return len(um.Params) > 1 && unwrapConv(v) == ssa.Value(um.Params[1]) }
+			isArg := func(v ssa.Value) bool { return len(um.Params) > 1 && isParamVal(unwrapConv(v), um.Params[1]) }
 			okAll := true
 			for _, ce := range ctrlEdges(c.Block()) {
 				for _, legal := range []int64{16384, 16385, 1<<24 - 1} {
